@@ -1,9 +1,18 @@
 import PistacheModel.Model.EventLoop
+import PistacheModel.Model.WriteInterest
 import Driver.Util
 import Driver.WriteQueue
 open Pistache Pistache.WriteQueue Pistache.EventLoop
 
 namespace Drv
+
+/-- write interest while `nw` writes are queued on a full socket, and after the peer made room for all and the writable event
+    was handled (Model/WriteInterest.lean) -/
+def wintOf (nw : Nat) : String :=
+  let evs : List WriteInterest.Ev := [.room 3] ++ (List.range nw).map fun i => WriteInterest.Ev.enqueue i (patternData i 8) true
+  let c1 := WriteInterest.run {} evs {}
+  let c2 := WriteInterest.run {} [.room (8 * nw + 8), .writable] c1
+  (if c1.armed then "1" else "0") ++ (if c2.armed then "1" else "0")
 
 def stallOp : List String → Option String
   | ["stall", nwS, sizeS, hold, nbS, sec] => do
@@ -12,6 +21,8 @@ def stallOp : List String → Option String
     -- "2": a third, established connection asks while the worker is busy, just before the blocked one becomes writable: it is
     -- answered and the blocked connection is drained all the same
     if sec == "2" then pure (base ++ " c=1") else
+    -- "3": a small send buffer on the stalled connection: many would-blocks per entry, the outcome is the same
+    if sec == "3" then pure base else
     if sec != "1" then pure base else
     let nw ← nwS.toNat?
     let size ← sizeS.toNat?
@@ -22,7 +33,7 @@ def stallOp : List String → Option String
     let ok := a.w.queue.isEmpty && a.w.settled.length == 2 * nw
     let proms := (List.range (2 * nw)).map fun _ => s!"ok:{size}"
     let head := (base.splitOn " recv=").headD ""
-    pure s!"{head} recv={if ok then 2 * nw * size else 0} match={if ok then "1" else "0"} promises={",".intercalate proms}"
+    pure s!"{head} recv={if ok then 2 * nw * size else 0} match={if ok then "1" else "0"} promises={",".intercalate proms} wint={wintOf (2 * nw)}"
   | ["stall", nwS, sizeS, _hold, nbS] => do
     let nw ← nwS.toNat?
     let size ← sizeS.toNat?
@@ -42,7 +53,7 @@ def stallOp : List String → Option String
     let proms := (List.range nw).map fun i => match a.w.settled.find? (fun p => p.1 == i) with
       | some p => if p.2 == msize then s!"ok:{size}" else s!"ok:{p.2}"
       | none => "pending"
-    pure s!"banswered={b.w.settled.length} bworst=fast attempts={if during ≤ 50 then "few" else "many"} recv={if ok then nw * size else a.w.wire.length} match={if ok then "1" else "0"} promises={",".intercalate proms}"
+    pure s!"banswered={b.w.settled.length} bworst=fast attempts={if during ≤ 50 then "few" else "many"} recv={if ok then nw * size else a.w.wire.length} match={if ok then "1" else "0"} promises={",".intercalate proms} wint={wintOf nw}"
   | _ => none
 
 end Drv
